@@ -1745,7 +1745,9 @@ def create_evolution_joint(taxa, alignment, arg):
             )
             joint_dic["distributions"].append(trait_dic)
 
-    if len(prior_dic["distributions"]) > 0:
+    # loggers and samplers only report "prior" when it exists
+    arg._has_prior = len(prior_dic["distributions"]) > 0
+    if arg._has_prior:
         joint_dic["distributions"].append(prior_dic)
 
     return joint_dic
